@@ -100,25 +100,28 @@ def dropLeadingComments : List Line → List Line
 
 def suppressFirstComments (t : Text) : Text := joinNl (dropLeadingComments (splitNl t))
 
-/-! ### 2. `suppress_main_guard` : `(?ms)^if +__name__ *== *.__main__. *:.+` ↦ "" -/
+/-! ### 2. `suppress_main_guard` : the top-level `if` blocks whose first line matches
+`if +__name__ *== *.__main__. *:` (repair 9ee7189: the blocks are delimited by the PARSER) -/
 
 def kwName : Text := "__name__".toList
 def kwMain : Text := "__main__".toList
 
-/-- After `.__main__`: `. *:.+` — one arbitrary character, spaces, a colon, at least one character. -/
+/-- After `.__main__`: `. *:` — one character other than a newline, spaces, a colon. -/
 def guardTail (s : Text) : Bool :=
   match s with
   | [] => false
-  | _ :: r =>
-    match skipSpaces r with
-    | ':' :: r' => !r'.isEmpty
-    | _ => false
+  | c :: r =>
+    c != '\n' &&
+      match skipSpaces r with
+      | ':' :: _ => true
+      | _ => false
 
 /-- After `==`: ` *.__main__` then `guardTail`. The `.` may itself eat the last of the spaces. -/
 def guardAfterEq (s : Text) : Bool :=
   let s' := skipSpaces s
   (match s' with
-   | _ :: r => match dropPrefix? kwMain r with
+   | c :: r => c != '\n' &&
+     match dropPrefix? kwMain r with
      | some r' => guardTail r'
      | none => false
    | [] => false)
@@ -127,8 +130,8 @@ def guardAfterEq (s : Text) : Bool :=
       | some r' => guardTail r'
       | none => false)
 
-/-- Does the regex (without its `^`) match at the beginning of `s`? `.` is DOTALL. -/
-def guardAt (s : Text) : Bool :=
+/-- `regex.compile(r"if +__name__ *== *.__main__. *:").match(line)` succeeds. -/
+def guardLine (s : Text) : Bool :=
   match dropPrefix? "if ".toList s with
   | none => false
   | some s1 =>
@@ -139,13 +142,27 @@ def guardAt (s : Text) : Bool :=
       | none => false
       | some s3 => guardAfterEq s3
 
-/-- Scan the text; at the first line start where the guard matches, drop everything to the end. -/
-def dropGuard : (atLineStart : Bool) → Text → Text
-  | _, [] => []
-  | true, c :: cs => if guardAt (c :: cs) then [] else c :: dropGuard (c == '\n') cs
-  | false, c :: cs => c :: dropGuard (c == '\n') cs
+/-- `del lines[a - 1 : b]` -/
+def delRange (ls : List Line) (a b : Nat) : List Line := ls.take (a - 1) ++ ls.drop b
 
-def suppressMainGuard (t : Text) : Text := dropGuard true t
+/-- `match(lines[a - 1])` (an index out of range — impossible for CPython's parser — counts as no match) -/
+def isGuardAt (ls : List Line) (a : Nat) : Bool :=
+  match ls[a - 1]? with
+  | some l => guardLine l
+  | none => false
+
+/-- The loop `for node in reversed(statements)`: `ranges` are the `(lineno, end_lineno)` of the
+top-level `if` statements IN THE ORDER THE LOOP VISITS THEM (last statement first). -/
+def dropGuards (ls : List Line) : List (Nat × Nat) → List Line
+  | [] => ls
+  | (a, b) :: rest => dropGuards (if isGuardAt ls a then delRange ls a b else ls) rest
+
+/-- `suppress_main_guard`. The parser is an oracle: `none` when `ast.parse` raises SyntaxError or
+ValueError, else the `(lineno, end_lineno)` of the top-level `if` statements in source order. -/
+def suppressMainGuard (ifs : Option (List (Nat × Nat))) (t : Text) : Text :=
+  match ifs with
+  | none => t
+  | some rs => joinNl (dropGuards (splitNl t) rs.reverse)
 
 /-! ### 3. `suppress_sys_path_injection` : `(?m)^__import__\("sys"\)\.path\[0:0\] = .+\n` ↦ "" -/
 
@@ -169,9 +186,11 @@ def suppressSysPath (t : Text) : Text := joinNl (dropInjections (splitNl t))
 
 def expandTabs (t : Text) : Text := t.flatMap fun c => if c = '\t' then "    ".toList else [c]
 
-/-- The three text passes and the tab expansion that precede the tokenizer. -/
-def preprocess (t : Text) : Text :=
-  expandTabs (suppressSysPath (suppressMainGuard (suppressFirstComments t)))
+/-- The three text passes and the tab expansion that precede the tokenizer. `parse` is the parser
+oracle, asked about the text that `suppress_first_comments` returns. -/
+def preprocess (parse : Text → Option (List (Nat × Nat))) (t : Text) : Text :=
+  let t1 := suppressFirstComments t
+  expandTabs (suppressSysPath (suppressMainGuard (parse t1) t1))
 
 /-! ### 5. `normalize_paroxython_comments` : `(?i)#\s*paroxython\s*:\s*` ↦ "# paroxython: ", counted -/
 
@@ -388,9 +407,9 @@ inductive CleanErr (ε : Type) where
 
 /-- `Cleanup.full_cleaning`, the tokenizer being a parameter that may raise (all tokens are produced
 before the loop starts). -/
-def fullCleaning {ε : Type} (tokenize : Text → Except ε (List Token)) (src : Text) :
-    Except (CleanErr ε) Text :=
-  match tokenize (preprocess src) with
+def fullCleaning {ε : Type} (parse : Text → Option (List (Nat × Nat)))
+    (tokenize : Text → Except ε (List Token)) (src : Text) : Except (CleanErr ε) Text :=
+  match tokenize (preprocess parse src) with
   | .error e => .error (.tokenizer e)
   | .ok ts => if loopRaises ts then .error .indexError else .ok (postprocess ts)
 
